@@ -372,6 +372,9 @@ func (ex *Exec) shift(op token.Token, k kind, ty types.Type, x, y value) value {
 func (ex *Exec) unop(instr *ssa.UnOp, x value) value {
 	switch instr.Op {
 	case token.MUL: // load
+		if se, ok := x.(*symElem); ok {
+			return ex.indexVal(se.arr, se.idx, se.it, se.et)
+		}
 		p := x.(*value)
 		if p == nil {
 			ex.rtPanic("invalid memory address or nil pointer dereference")
